@@ -474,6 +474,32 @@ func registerBigIntrinsics(in map[string]Intrinsic) {
 		w.bigSet(g, a[0], r)
 		return a[0], ctlNext
 	}
+	in[bi+"FillBytes"] = func(w *Worker, g *G, fr *Frame, fn *ssa.Function, a []Value) (Value, ctl) {
+		if !w.e.theoryBig {
+			return w.fallThrough(g, fr, fn, a)
+		}
+		x := w.bigOf(g, a[0])
+		if x == nil {
+			return nil, ctlStay
+		}
+		buf := a[1].(SliceV)
+		n := buf.Len
+		ax := IAbs(x)
+		fits := ILt(ax, IntConst(pow2(8*n)))
+		if !w.decide(fits, "FillBytes-fits") {
+			w.raise(g, w.rtError("math/big: buffer too small to fit value"))
+			return nil, ctlStay
+		}
+		vals := make([]Value, n)
+		if n > 0 {
+			bv := Int2BV(ax, 8*n)
+			for i := 0; i < n; i++ {
+				vals[i] = Extract(bv, 8*(n-i)-1, 8*(n-i-1))
+			}
+			w.writeSlice(buf, 0, vals)
+		}
+		return buf, ctlNext
+	}
 	_ = types.Typ
 }
 
